@@ -2016,6 +2016,11 @@ pub fn report_failures(
                     replay(&alone.outcome, &f2.what),
                 );
             }
+            None if f.key.starts_with("worker-died") => {
+                // the batch worker died / timed out (machine load); the case itself was now
+                // evaluated alone through the plain forc path and holds
+                rep.add("cases_evaluated_alone_after_worker_death", 1);
+            }
             None => rep.violation(
                 &format!("{key}|only-in-batch"),
                 &format!("{}: {} (does not reproduce alone in Mode A)", case.desc(), f.what),
@@ -2380,7 +2385,7 @@ pub fn run_stages(
         let cfg = RunCfg {
             prefix: format!("{prefix}s{si}"),
             release: st.release,
-            max_cases: max_cases.min((sel.len() / (2 * pool.jobs.max(1))).max(24)),
+            max_cases: max_cases.min((sel.len() / (4 * pool.jobs.max(1))).max(24)),
             max_words: 2500,
         };
         let t0 = std::time::Instant::now();
